@@ -102,6 +102,7 @@ func runC02(run *Run, replay string) {
 		nw = 3000
 	}
 	c02Worlds(run, nw)
+	objectCompletionRanges(run, nw)
 }
 
 // jsonLineHasEscape: the line the range starts on contains a backslash before the range's end
@@ -118,7 +119,18 @@ func jsonLineHasEscape(p *PathData, r hcl.Range) bool {
 	for le < len(src) && src[le] != '\n' {
 		le++
 	}
-	return strings.Contains(string(src[ls:le]), "\\")
+	line := string(src[ls:le])
+	if strings.Contains(line, "\\") {
+		return true
+	}
+	// text that is not in Unicode normal form C (a base letter followed by a combining mark): cty normalises
+	// string values, so the decoded content is shorter than the source bytes, like with escapes
+	for _, r := range line {
+		if r >= 0x0300 && r <= 0x036F {
+			return true
+		}
+	}
+	return false
 }
 
 func rngString(rr RRange) string {
